@@ -5,11 +5,12 @@ cd "$(dirname "$0")"
 export CARGO_NET_OFFLINE=true
 mkdir -p .build/run
 [ -f harness/Cargo.lock ] || cp /repo/Cargo.lock harness/Cargo.lock
+[ -f probes/Cargo.lock ] || cp /repo/Cargo.lock probes/Cargo.lock
 (cd harness && cargo build --release --offline 2>&1 | tail -3)
-./.build/target/release/pm facts > lean/PasetoModel/Extracted/Headers.lean.new
-if ! cmp -s lean/PasetoModel/Extracted/Headers.lean.new lean/PasetoModel/Extracted/Headers.lean; then
-  mv lean/PasetoModel/Extracted/Headers.lean.new lean/PasetoModel/Extracted/Headers.lean
-else
-  rm lean/PasetoModel/Extracted/Headers.lean.new
-fi
+upd() { # $1 = generated file, $2 = destination
+  if ! cmp -s "$1" "$2"; then mv "$1" "$2"; else rm "$1"; fi
+}
+./.build/target/release/pm facts > lean/PasetoModel/Extracted/Headers.lean.new && upd lean/PasetoModel/Extracted/Headers.lean.new lean/PasetoModel/Extracted/Headers.lean
+./.build/target/release/pm impls > lean/PasetoModel/Extracted/Impls.lean.new && upd lean/PasetoModel/Extracted/Impls.lean.new lean/PasetoModel/Extracted/Impls.lean
+python3 tools/featscan.py > lean/PasetoModel/Extracted/Features.lean.new && upd lean/PasetoModel/Extracted/Features.lean.new lean/PasetoModel/Extracted/Features.lean
 (cd lean && lake build PasetoModel pmdriver 2>&1 | grep -v "^trace\|^warning\|Hint\|\[apply\]\|^Note\|^$\|^  " | tail -15)
